@@ -163,6 +163,7 @@ def install(ctx, repo, probes):
         ctx.target("strftime/" + rep)
     for c in SUPPORTED:
         ctx.target("directive/%" + c)
+    ctx.target("strftime/via-operator", "unsupported-refused-strptime")
     ctx.target("parser/assumed+default-unknown", "empty-format",
                "week-year-differs-from-calendar-year", "%s-before-1970",
                "strptime/full", "strptime/epoch", "strptime/partial",
@@ -203,7 +204,61 @@ def run_case(ctx, repo, case):
     key = R.tp_key(p)
     op = case["op"]
     fmt = case["fmt"]
+    if op == "unsupported-strptime":
+        # reading with an unsupported directive is refused too - every time
+        # the same parser is asked
+        parser = ctx.parsers.setdefault("unsupported",
+                                        repo.parsers.TimePointParser())
+        for attempt in (1, 2, 3):
+            ctx.ev("unsupported-strptime")
+            try:
+                res = parser.strptime(case["text"], fmt)
+                exc = None
+            except Exception as e:
+                res, exc = None, e
+            if exc is None or not isinstance(exc, ValueError):
+                ctx.violation("unsupported", "strptime(%r, %r) with an "
+                              "unsupported directive (attempt %d on one "
+                              "parser) returned %r / raised %r" % (
+                                  case["text"], fmt, attempt,
+                                  None if res is None else R.tp_key(res),
+                                  exc), fmt=fmt)
+                break
+        else:
+            ctx.cls("unsupported-refused-strptime")
+        return
     if op in ("strftime", "unsupported"):
+        if case.get("via") == "oper":
+            # a long-lived DateTimeOperator: what it printed before (also a
+            # year its format cannot hold) does not matter
+            if getattr(ctx, "oper", None) is None:
+                ctx.oper = repo.datetimeoper.DateTimeOperator()
+            try:
+                far = repo.tp(dict(case["p"], year=12345,
+                                   num_expanded_year_digits=2))
+                ctx.oper.strftime(far, fmt)
+            except Exception:
+                pass
+            want = None
+            if R.tp_is_integral(p) and R.tp_form(p) == "hms" and \
+                    p._hour_of_day != 24:
+                rd = R.tp_rd(MODE, p)
+                epoch = R.unix_epoch_rd(MODE) * 86400
+                want = R.posix_strftime(
+                    MODE, fmt, rd, int(R.tp_sod(p)), R.tp_offset_minutes(p),
+                    int(R.tp_instant(MODE, p) - epoch))
+            try:
+                got = ctx.oper.strftime(p, fmt)
+            except Exception as e:
+                got = e
+            ctx.ev("oper.strftime")
+            if want is not None and got != want:
+                ctx.violation("strftime.wrong", "DateTimeOperator.strftime("
+                              "%r, %r) = %r, POSIX gives %r" % (
+                                  key, fmt, got, want), fmt=fmt)
+            else:
+                ctx.cls("strftime/via-operator")
+            return
         try:
             if case.get("via") == "dumper":
                 repo.dumpers.TimePointDumper().strftime(p, fmt)
@@ -306,6 +361,8 @@ def workload(ctx, repo):
             case = {"op": "strftime", "p": make_point(rng, whole=(k % 4 != 0)),
                     "fmt": rand_format(rng),
                     "via": "dumper" if k % 3 == 0 else "point"}
+            if k % 10 == 2 and k % 4 != 0:
+                case["via"] = "oper"
             if k % 50 == 10:
                 # no directive at all: the empty format, literal text only
                 case["fmt"] = rng.choice(("", "", " ", "T", "literal"))
@@ -333,6 +390,13 @@ def workload(ctx, repo):
             case = {"op": "unsupported", "p": make_point(rng),
                     "fmt": rng.choice(("%" + letter, "%Y-%" + letter,
                                        "x%" + letter + "%d"))}
+            if k % 20 == 9:
+                case = {"op": "unsupported-strptime", "p": case["p"],
+                        "fmt": rng.choice(("%Y-%m-%d %" + letter,
+                                           "%Y%m%dT%H%M%" + letter,
+                                           "%" + letter + " %Y")),
+                        "text": rng.choice(("2002-03-01 ", "20020301T1200x",
+                                            "x 2002"))}
         ctx.case = case
         if k % 499 == 0:
             ctx.sample(case)
